@@ -34,7 +34,7 @@ add("C10", "exploration", "property-based testing (proptest) + full id-space swe
     "DESIGN.md section 4, C10")
 add("C11", "exploration", "property-based testing (proptest): all ordered pairs of generated DAGs vs BFS distances and a path validity predicate",
     "Search over generated graphs biased to chains with shortcuts, diamond ladders, several roots; distances compared with BFS reference, paths checked by a validity predicate (links, end point, length) so that ties are not misjudged.",
-    "Graphs of <=16 terms quick / 22 thorough (the library's recursive search is exponential on ladders).",
+    "Graphs of <=16 terms quick / 22 thorough (the library's recursive search is exponential on ladders). Lineages of more than 270 (thorough 600) links are not asked for distances or paths by this check - the per-pair cost of the library grows too fast - so a slip confined to deeper lineages is only seen through the ancestor sets that C01 checks on 5 000-link lineages (DESIGN.md section 12, round 22, C11r22).",
     "DESIGN.md section 4, C11")
 add("C12", "exploration", "stateful property-based testing (proptest op sequences) vs BTreeSet model; set-algebra differential for operators and ancestor queries",
     "Operation sequences and operand pairs of all relationship classes across the inline-storage limit, every constructor and ownership variant, compared with BTreeSet; ancestor queries of all term pairs compared with set algebra on the model closure.",
